@@ -787,7 +787,7 @@ Proof. eexists. split; [vm_compute; reflexivity|reflexivity]. Qed.
 
 (** ---- a connection error reported by recv ---- *)
 
-(** when the receiver remembers it ([mark], the proposed fix fixes/C10-recv-error-not-remembered): every call
+(** the receiver remembers it ([mark], commit 91df8ef): every call
     that has not started yet fails, whatever the peer and the transport do afterwards *)
 Theorem later_fail_after_recv_error n m j m1 i :
   reach true true true true n m -> step true true true true m (ARecvErr j) = Some m1 -> get (thr m1) i = TIdle ->
@@ -798,7 +798,7 @@ Proof.
   - cbn [step] in Hs. destruct (get (thr m) j); try discriminate. inversion Hs; subst. reflexivity.
 Qed.
 
-(** the code as it is: the error is forgotten; a later call is sent and waits in recv on the connection the
+(** before that commit the error was forgotten; a later call is sent and waits in recv on the connection the
     client itself has declared broken (and hangs if the desynchronised stream does not happen to fail again) *)
 Definition trace_forgotten : list action :=
   [AStart 0 1 0; ASendOk 0; AWaitToken 0; ARecvErr 0; AWaitDone 0; AStart 1 1 0; ASendOk 1; AWaitToken 1].
